@@ -12,9 +12,10 @@
 //! 2^8, 2^12, 2^16, 2^20, 2^22 is climbed with every other field and the history unchanged (fresh, identical
 //! state for each step). A handler violates `work-mem` when it allocates at least 1 MiB, more than
 //! `256·(frame bytes + state entries) + 64 KiB`, and at least 64 times what it allocated at 2^8; the ladder
-//! stops there. `work-cpu` is judged at the top of the ladder only: at least 2 ms, more than
-//! `1 µs·(frame bytes + state entries) + 0.5 ms`, at least 64 times the cost at 2^8, taking the minimum of three
-//! to eight runs (CPU time is only ever inflated). Values above 2^22 are sent only if no handler of the chain was
+//! stops there. `work-cpu` is judged at the top of the ladder only, on the whole chain the stack runs for the
+//! frame: at least 2 ms and more than `1 µs·(frame bytes + state entries) + 0.5 ms`, per-handler minimum of three
+//! to eight runs (CPU time is only ever inflated); every handler of such a chain that contributes at least 0.5 ms
+//! and at least 64 times its cost at 2^8 is named. Values above 2^22 are sent only if no handler of the chain was
 //! flagged and none panicked on the ladder. A probe that uses 5 s of CPU (or blocks for 30 s) is given up:
 //! `work-cpu:<handler>:<field>:timeout`. A panic inside a handler is `panic:<handler>:<field>`.
 //!
@@ -533,8 +534,30 @@ impl Driver<'_> {
         Some(r)
     }
 
-    /// work oracle for one probe result against the ladder bottom; returns the handlers flagged (mem, cpu-suspect)
-    fn judge(&mut self, forged: &Forged, r: &ProbeResult, bottom: &Bottom, label: &str, judge_cpu: bool) -> (bool, bool) {
+    /// one more execution of the same probe (control subtracted), CPU nanoseconds per handler
+    fn cpu_reading(&self, forged: &Forged, label: &str) -> BTreeMap<&'static str, u64> {
+        self.beat(&format!("{}:{}:repeat", label, self.field_name));
+        let again = probe(self.case, forged);
+        let mut m: BTreeMap<&'static str, u64> = again.handlers.iter().map(|h| (h.name, h.cost.cpu_ns)).collect();
+        if let Some(ctrl) = forged.control(self.case.field) {
+            let cr = probe(self.case, &ctrl);
+            for h in &cr.handlers {
+                if let Some(c) = m.get_mut(h.name) {
+                    *c = c.saturating_sub(h.cost.cpu_ns);
+                }
+            }
+        }
+        m
+    }
+
+    /// Work oracle for one probe result against the ladder bottom; returns (memory flagged, cpu flagged).
+    ///
+    /// Memory is exact and judged per handler. CPU: the cost of the forged call is the cost of the whole chain the
+    /// stack runs for the frame; when that reaches the threshold, every handler of the chain that contributes at
+    /// least `CPU_OWN_FLOOR_NS` and grew by the ratio along the ladder is named. (Judging each handler against the
+    /// 2 ms on its own is not repeatable: `cc.on_ack_rcvd` costs between 1.7 and 25 ms at 2^22 depending on the
+    /// state, always next to `rcvd-journal.on_rcvd_ack` with 7 to 50 ms.)
+    fn judge(&mut self, forged: &Forged, r: &ProbeResult, bottom: &mut Bottom, label: &str, judge_cpu: bool) -> (bool, bool) {
         let n = r.frame_len as u64 + r.units;
         let mut mem_flag = false;
         let mut cpu_flag = false;
@@ -555,52 +578,69 @@ impl Driver<'_> {
                     ),
                     self.probes,
                 );
-            } else if judge_cpu && meter::cpu_excess(h.cost.cpu_ns, b.cpu_ns, n) {
-                // confirm on freshly rebuilt identical state. Thread CPU time is only ever inflated (cold caches,
-                // a preempted virtual CPU), so the minimum is the estimate: at least three readings, at most eight,
-                // until the two smallest agree within 15 % or one falls below the threshold
-                let mut readings = vec![h.cost.cpu_ns];
-                let mut min = h.cost.cpu_ns;
-                while readings.len() < 8 {
-                    if !meter::cpu_excess(min, b.cpu_ns, n) {
-                        break;
-                    }
-                    if readings.len() >= 3 {
-                        let mut sorted = readings.clone();
-                        sorted.sort();
-                        if sorted[1] as f64 <= sorted[0] as f64 * 1.15 {
-                            break;
-                        }
-                    }
-                    self.beat(&format!("{}:{}:repeat", label, self.field_name));
-                    meter::set_stop_after(Some(h.name));
-                    let again = probe(self.case, forged);
-                    let mut c = again.handlers.iter().find(|x| x.name == h.name).map(|x| x.cost.cpu_ns).unwrap_or(0);
-                    if let Some(ctrl) = forged.control(self.case.field) {
-                        meter::set_stop_after(Some(h.name));
-                        let cr = probe(self.case, &ctrl);
-                        c = c.saturating_sub(cr.handlers.iter().find(|x| x.name == h.name).map(|x| x.cost.cpu_ns).unwrap_or(0));
-                    }
-                    meter::set_stop_after(None);
-                    readings.push(c);
-                    min = min.min(c);
+            }
+        }
+        if !judge_cpu || mem_flag {
+            return (mem_flag, false);
+        }
+        // thread CPU time is only ever inflated (cold caches, a preempted virtual CPU): per handler the minimum over
+        // freshly rebuilt identical executions is the estimate. At least three readings once the chain looks
+        // expensive, at most eight, until the two cheapest chain totals agree within 15 %.
+        let mut mins: BTreeMap<&'static str, u64> = r.handlers.iter().filter(|h| h.panic.is_none()).map(|h| (h.name, h.cost.cpu_ns)).collect();
+        let mut totals: Vec<u64> = vec![mins.values().sum()];
+        let chain_excess = |total: u64| total >= meter::CPU_ABS_NS && total > meter::CPU_PER_UNIT_NS * n + meter::CPU_C0_NS;
+        while chain_excess(mins.values().sum()) && totals.len() < 8 {
+            if totals.len() >= 3 {
+                let mut sorted = totals.clone();
+                sorted.sort();
+                if sorted[1] as f64 <= sorted[0] as f64 * 1.15 {
+                    break;
                 }
-                if std::env::var("BYZSIM_DEBUG").is_ok() {
-                    eprintln!("[byzsim] cpu {} {} first {} us, min {} us", h.name, label, h.cost.cpu_ns / 1000, min / 1000);
+            }
+            let reading = self.cpu_reading(forged, label);
+            totals.push(reading.values().sum());
+            for (k, v) in reading {
+                if let Some(m) = mins.get_mut(k) {
+                    *m = (*m).min(v);
                 }
-                if meter::cpu_excess(min, b.cpu_ns, n) {
-                    cpu_flag = true;
-                    self.flagged.insert(h.name);
-                    self.out.violate(
-                        "work-cpu",
-                        format!("{}:{}", h.name, self.field_name),
-                        format!(
-                            "{} used at least {} us of CPU handling one {}-byte frame with {} entries of state held ({} ns at the ladder bottom) [{label}; {}]",
-                            h.name, min / 1000, r.frame_len, r.units, b.cpu_ns, r.detail
-                        ),
-                        self.probes,
-                    );
+            }
+        }
+        let total: u64 = mins.values().sum();
+        if std::env::var("BYZSIM_DEBUG").is_ok() {
+            eprintln!("[byzsim] cpu {label}: chain {} us after {} readings, handlers {:?}", total / 1000, totals.len(), mins.iter().map(|(k, v)| (*k, v / 1000)).collect::<Vec<_>>());
+        }
+        if !chain_excess(total) {
+            return (mem_flag, false);
+        }
+        // growth along the ladder, per handler; a bottom reading that looks inflated is taken again
+        let growers: Vec<&'static str> = mins.iter().filter(|(k, v)| **v >= meter::CPU_OWN_FLOOR_NS && !self.flagged.contains(*k)).map(|(k, _)| *k).collect();
+        if growers.iter().any(|k| {
+            let b = bottom.get(k).map(|c| c.cpu_ns).unwrap_or(0);
+            b > 8_000 && mins[k] < meter::RATIO * b
+        }) {
+            let low = self.case.forged.with(self.case.field, 1u64 << LADDER[0]);
+            for _ in 0..2 {
+                for (k, v) in self.cpu_reading(&low, "ladder bottom") {
+                    if let Some(b) = bottom.get_mut(k) {
+                        b.cpu_ns = b.cpu_ns.min(v);
+                    }
                 }
+            }
+        }
+        for k in growers {
+            let b = bottom.get(k).map(|c| c.cpu_ns).unwrap_or(0);
+            if mins[k] >= meter::RATIO * b.max(1_000) {
+                cpu_flag = true;
+                self.flagged.insert(k);
+                self.out.violate(
+                    "work-cpu",
+                    format!("{}:{}", k, self.field_name),
+                    format!(
+                        "handling one {}-byte frame with {} entries of state held took at least {} us of CPU, {} us of them in {} ({} ns at the ladder bottom) [{label}; {}]",
+                        r.frame_len, r.units, total / 1000, mins[k] / 1000, k, b, r.detail
+                    ),
+                    self.probes,
+                );
             }
         }
         (mem_flag, cpu_flag)
@@ -643,7 +683,7 @@ impl Driver<'_> {
                     }
                     // the bottom is judged as a point (absolute bound only matters higher up)
                 } else {
-                    let (m, c) = self.judge(&f, &r, &bottom, &label, k == LADDER[LADDER.len() - 1]);
+                    let (m, c) = self.judge(&f, &r, &mut bottom, &label, k == LADDER[LADDER.len() - 1]);
                     dependent |= m | c;
                     if m {
                         // allocation grows with the value: climbing further only costs memory
@@ -670,7 +710,7 @@ impl Driver<'_> {
                 eprintln!("[byzsim] {} {} -> {:?} {:?}", self.field_name, label, r.answer, r.handlers.iter().map(|h| (h.name, h.cost.alloc, h.cost.cpu_ns / 1000)).collect::<Vec<_>>());
             }
             if !bottom.is_empty() {
-                self.judge(&f, &r, &bottom, &label, true);
+                self.judge(&f, &r, &mut bottom, &label, true);
             }
         } else if !covered {
             self.out.stats.bump("probe.huge_value_withheld");
